@@ -487,6 +487,22 @@ type c19NumCase struct {
 // names, for equal and different event ids.
 func c19CheckNums(c c19NumCase) engine.Result {
 	var res engine.Result
+	// a descriptor asked about ITSELF (the very same object on both sides): the relation is a function of the values
+	if c.Num == 0 {
+		for t := 0; t < 256; t++ {
+			v := c19Val{Type: t, Event: 2, HasPTS: true, PTS: 100, Num: 1, Exp: 1}
+			d := mkDescriptor(v)
+			res.Evals++
+			if got, want := d.CanClose(d), c19RefCanClose(v, v); got != want {
+				res.Failf("CanClose|same-object-on-both-sides", "type %#x: d.CanClose(d)=%v want %v", t, got, want)
+				break
+			}
+			if !d.Equal(d) {
+				res.Failf("Equal|same-object-on-both-sides", "type %#x: d.Equal(d) false for a descriptor whose signal has a PTS", t)
+				break
+			}
+		}
+	}
 	opens := []c19Val{}
 	for _, t := range []int{0x30, 0x34, 0x36, 0x3C, 0x44, 0x10} {
 		for _, ev := range []uint32{0, 2} {
